@@ -270,7 +270,23 @@ def impl_highwater(case):
     flags = {"inexact": False}
     res = compile_routine(to_qref(case["routine"]),
                           derived_resources=[{"name": "qubit_highwater", "type": "qubits", "calculate": calculate_highwater}])
-    return {"tree": walk_compiled(res.routine, flags), "inexact": flags["inexact"]}
+    out = {"tree": walk_compiled(res.routine, flags), "inexact": flags["inexact"]}
+    # the same hierarchy evaluated by the real evaluate() at natural-number points: the NUMBERS it reports at every node
+    from bartiq import evaluate
+    import random
+    rng = random.Random(case.get("eval_seed", 0))
+    evals = []
+    for _ in range(case.get("n_eval", 0)):
+        a = {p: rng.randint(1, 6) for p in res.routine.input_params}
+        try:
+            ef = {"inexact": False}
+            evals.append({"assign": a, "ok": True, "tree": walk_compiled(evaluate(res.routine, a).routine, ef)})
+        except BaseException as e:  # noqa: BLE001
+            if type(e).__name__ == "CaseTimeout":
+                raise
+            evals.append({"assign": a, "ok": False, "exc": type(e).__name__})
+    out["evals"] = evals
+    return out
 
 
 # ------------------------------------------------------------------ Big-O (C19)
@@ -525,6 +541,17 @@ def impl_repro(case):
     g3 = add_aggregated_resources(res1.routine, d)
     out["aggregate_pure"] = pickle.dumps(res1.routine) == snap and d == d_before and repr(d) == d_repr
     out["aggregate_repeatable"] = g1 == g3 and g2 is not None
+    # a derived resource recomputed on the compiled object it was derived for: the same value every time (the second and
+    # third call traverse the children of the SAME object again)
+    try:
+        from bartiq import sympy_backend as _sb3
+        from bartiq.compilation.derived_resources import calculate_highwater as _hw
+        rh = compile_routine(doc, derived_resources=[{"name": "qubit_highwater", "type": "qubits", "calculate": _hw}]).routine
+        vals = [str(_hw(rh, _sb3)) for _ in range(3)]
+        stored = str(rh.resources["qubit_highwater"].value) if "qubit_highwater" in rh.resources else None
+        out["derived_repeatable"] = len(set(vals)) == 1 and (stored is None or vals[0] == stored)
+    except BaseException:  # noqa: BLE001
+        out["derived_repeatable"] = True       # (no highwater for this routine: nothing to compare)
     # a live Routine object compiled cold, then again after the process has created far more new symbol names than sympy's
     # symbol cache holds (1000 by default): what was interned when the object was built is no longer, equal symbols are
     # not identical any more, and the result must still be the same
